@@ -149,14 +149,21 @@ def gen_program(tape, phase, special):
                 kind = tape.weighted([(12, 'store'), (2, 'store_input'), (1, 'store_final'), (3, 'log'),
                                       (2, 'annotate'), (3, 'metadata'), (2, 'localfile'),
                                       (5, 'retrieve'), (3, 'retrieve_name'), (1, 'db_store_model'),
-                                      (1, 'retrieve_log')], 'op')
+                                      (1, 'retrieve_log'), (2, 'dummy_run'), (2, 'nmfiles')], 'op')
                 m = chosen[tape.draw(len(chosen), 'op.model')]
+                if kind == 'nmfiles':
+                    ok = [x for x in chosen if x in base.NM_OK]
+                    if ok:
+                        m = ok[tape.draw(len(ok), 'op.nm')]
+                    else:
+                        kind = 'localfile'
                 uid[0] += 1
                 if focus == 4 and tape.draw(10, 'focus.log') < 7:
                     kind = 'log'
                 if focus == 3:
                     kind = tape.weighted([(4, 'store'), (3, 'metadata'), (2, 'localfile'), (5, 'retrieve'),
-                                          (3, 'retrieve_name'), (1, 'store_input')], 'hot.op')
+                                          (3, 'retrieve_name'), (1, 'store_input'), (2, 'dummy_run')],
+                                         'hot.op')
                 if kind in ('store_input', 'store_final'):
                     nm = 'input' if kind == 'store_input' else 'final'
                     m = special.setdefault(nm, m)
@@ -204,7 +211,7 @@ def run_one(cfg, tape, want_trace=False):
     dbmod, ctxmod = base._P['dbmod'], base._P['ctxmod']
     saved_locks = (dbmod.path_lock, ctxmod.path_lock)
     # the context directory is created fault-free (context creation is not a store)
-    base.quiet(base._P['Ctx']('ctx', ref=root))
+    base.quiet(base._P['Ctx']('ctx', ref=root, common_options=base.COMMON_OPTIONS))
     try:
         for phase in range(nphases):
             prog = gen_program(tape, phase, special)
@@ -397,8 +404,7 @@ def run_one(cfg, tape, want_trace=False):
     return res
 
 
-MUTATING = ('store', 'store_input', 'store_final', 'db_store_model', 'metadata', 'localfile', 'annotate',
-            'log')
+MUTATING = base.TXN_KINDS + ('annotate', 'log')
 
 
 def _justify_error(r, recs, failed_ops, simos, V, stats):
@@ -418,11 +424,11 @@ def _justify_error(r, recs, failed_ops, simos, V, stats):
         if any(f.get('model') is not None and POOL[f['model']]['key'] == key for f in failed_ops) or any(
                 x is not r and x['status'] in ('error', 'killed') and x['inv'] < r['ret'] and
                 x['op'].get('model') is not None and POOL[x['op']['model']]['key'] == key and
-                x['op']['kind'] in MUTATING[:6] for x in recs):
+                x['op']['kind'] in base.TXN_KINDS for x in recs):
             return
-    if isinstance(ex, FileExistsError) and op['kind'] in ('store', 'store_input', 'store_final'):
+    if isinstance(ex, FileExistsError) and op['kind'] in base.BINDERS:
         nm = base.store_name(op)
-        if any(x is not r and x['op']['kind'] in ('store', 'store_input', 'store_final') and
+        if any(x is not r and x['op']['kind'] in base.BINDERS and
                base.store_name(x['op']) == nm and x['inv'] < r['ret'] and
                (x['ret'] is None or x['ret'] > r['inv']) for x in recs):
             # store_key: exists() then symlink() without a lock - two concurrent stores of the
@@ -450,22 +456,20 @@ def _check_history(hist, ref, failed_ops, V, stats, simos, k):
             # this read returned carried results, a successful read must show them
             related = [x for x in recs if x['inv'] < r['ret'] and x['op'].get('model') is not None and
                        POOL[x['op']['model']]['key'] == e['key'] and
-                       x['op']['kind'] in ('store', 'store_input', 'store_final', 'db_store_model')]
+                       x['op']['kind'] in base.KEY_COMMITTERS + ('nmfiles',)]
             # acceptable results: those of any store of this key that had started before the
             # read returned, or of the latest ones acknowledged in earlier phases; "no results"
             # only if some store without results was among them / nothing carried results
-            acc = {POOL[x['op']['model']]['results_json'] for x in related
-                   if x['op']['kind'] != 'db_store_model' and POOL[x['op']['model']]['has_results']}
+            acc = {base.op_results_json(x['op']) for x in related} - {None}
             earlier = e['key'] in ref.keys_acked
             if earlier:
                 acc |= ref.results_candidates(e['key'])
-            if not acc or any(x['op']['kind'] == 'db_store_model' or
-                              not POOL[x['op']['model']]['has_results'] for x in related):
+            if not acc or any(base.op_may_commit_without_results(x['op']) for x in related):
                 acc.add(None)
             for f in failed_ops:
                 if f.get('model') is not None and POOL[f['model']]['key'] == e['key'] and \
-                        POOL[f['model']]['has_results']:
-                    acc.add(POOL[f['model']]['results_json'])
+                        base.op_results_json(f) is not None:
+                    acc.add(base.op_results_json(f))
             prob = base.content_problem(me, e['key'], acc)
             if prob is not None:
                 V.viol('partial-or-wrong-entry-visible',
@@ -477,15 +481,14 @@ def _check_history(hist, ref, failed_ops, V, stats, simos, k):
             e = POOL[op['model']]
             before = [a for a in acked if a['ret'] < r['inv'] and a['op'].get('model') is not None and
                       POOL[a['op']['model']]['key'] == e['key'] and
-                      a['op']['kind'] in ('store', 'store_input', 'store_final', 'db_store_model')]
+                      a['op']['kind'] in base.KEY_COMMITTERS]
             prior_acked = e['key'] in ref.keys_acked or bool(before)
             if prior_acked:
                 bad_txn = [x for x in recs if x['status'] in ('error', 'killed') and
                            x['op'].get('model') is not None and
                            POOL[x['op']['model']]['key'] == e['key'] and
                            x['inv'] < r['ret'] and
-                           x['op']['kind'] not in ('retrieve', 'retrieve_name', 'log', 'annotate',
-                                                   'retrieve_log')]
+                           x['op']['kind'] in base.TXN_KINDS]
                 if isinstance(r['exc'], base._P['Pending']) and (bad_txn or any(
                         f.get('model') is not None and POOL[f['model']]['key'] == e['key']
                         for f in failed_ops)):
@@ -534,33 +537,32 @@ def _check_history(hist, ref, failed_ops, V, stats, simos, k):
         e = POOL[op['model']]
         name = e['name']
         writers = [x for x in recs if x['op'].get('model') is not None and
-                   x['op']['kind'] in ('store', 'annotate') and not x['op'].get('sub') and
+                   x['op']['kind'] in ('store', 'annotate', 'dummy_run') and not x['op'].get('sub') and
                    POOL[x['op']['model']]['name'] == name]
         bound_before = (ref.names.get(name) == e['key']) or any(
-            x['status'] == 'ok' and x['ret'] < r['inv'] and x['op']['kind'] == 'store' for x in writers)
+            x['status'] == 'ok' and x['ret'] < r['inv'] and x['op']['kind'] in ('store', 'dummy_run')
+            for x in writers)
         if r['status'] == 'ok':
             me = r['out'][1]
             related = [x for x in recs if x['inv'] < r['ret'] and x['op'].get('model') is not None and
                        POOL[x['op']['model']]['key'] == e['key'] and
-                       x['op']['kind'] in ('store', 'store_input', 'store_final', 'db_store_model')]
-            acc = {POOL[x['op']['model']]['results_json'] for x in related
-                   if x['op']['kind'] != 'db_store_model' and POOL[x['op']['model']]['has_results']}
+                       x['op']['kind'] in base.KEY_COMMITTERS + ('nmfiles',)]
+            acc = {base.op_results_json(x['op']) for x in related} - {None}
             if e['key'] in ref.keys_acked:
                 acc |= ref.results_candidates(e['key'])
-            if not acc or any(x['op']['kind'] == 'db_store_model' or
-                              not POOL[x['op']['model']]['has_results'] for x in related):
+            if not acc or any(base.op_may_commit_without_results(x['op']) for x in related):
                 acc.add(None)
             for f in failed_ops:
                 if f.get('model') is not None and POOL[f['model']]['key'] == e['key'] and \
-                        POOL[f['model']]['has_results']:
-                    acc.add(POOL[f['model']]['results_json'])
+                        base.op_results_json(f) is not None:
+                    acc.add(base.op_results_json(f))
             prob = base.content_problem(me, e['key'], acc)
             descs = set(ref.annotation_candidates(name))
             for x in writers:
                 if x['inv'] < r['ret']:
                     descs.add(x['op']['text'] if x['op']['kind'] == 'annotate' else e['desc'])
             for f in failed_ops:
-                if f.get('model') is not None and f['kind'] in ('store', 'annotate') and \
+                if f.get('model') is not None and f['kind'] in ('store', 'annotate', 'dummy_run') and \
                         POOL[f['model']]['name'] == name:
                     descs.add(f['text'] if f['kind'] == 'annotate' else POOL[f['model']]['desc'])
             if prob is None and me.model.name != name:
@@ -575,13 +577,11 @@ def _check_history(hist, ref, failed_ops, V, stats, simos, k):
             ex = r['exc']
             bad_txn = any(x['status'] in ('error', 'killed') and x['op'].get('model') is not None and
                           POOL[x['op']['model']]['key'] == e['key'] and
-                          x['op']['kind'] not in ('retrieve', 'retrieve_name', 'log', 'annotate',
-                                                  'retrieve_log') for x in recs) or any(
+                          x['op']['kind'] in base.TXN_KINDS for x in recs) or any(
                 f.get('model') is not None and POOL[f['model']]['key'] == e['key'] for f in failed_ops)
-            ann_failed = any(x['status'] in ('error', 'killed') and x['op']['kind'] in ('store', 'annotate')
-                             for x in writers) or any(
-                f.get('model') is not None and f['kind'] in ('store', 'annotate', 'store_input',
-                                                             'store_final') for f in failed_ops)
+            ann_failed = any(x['status'] in ('error', 'killed') for x in writers) or any(
+                f.get('model') is not None and f['kind'] in ('annotate',) + base.BINDERS
+                for f in failed_ops)
             if isinstance(ex, base._P['Pending']) and bad_txn:
                 V.viol('committed-unretrievable/PendingTransactionError/'
                        'later-transaction-in-flight-on-same-key',
@@ -602,7 +602,7 @@ def _check_history(hist, ref, failed_ops, V, stats, simos, k):
         base.apply_ack(ref, r['op'])
     for r in recs:
         if r['status'] in ('error', 'killed', 'inflight'):
-            if r['op']['kind'] not in ('retrieve', 'retrieve_log', 'retrieve_name'):
+            if r['op']['kind'] not in base.READS:
                 failed_ops.append(r['op'])
             if r['status'] == 'error':
                 stats['op.failed_with_' + type(r['exc']).__name__] = \
